@@ -1,5 +1,6 @@
 import Np.Proofs.Deriv
 import Np.Model.Grad
+import Np.Proofs.DerivFull
 /-! C06 — derivative, gradient and Hessian are the formal partial derivatives: property theorems -/
 namespace Np.Props.C06
 open MvPolynomial
@@ -18,6 +19,28 @@ theorem wrapped_rows_are_zero (j : Nat) (t : Expo × S) (h : t.1.getD j 0 = 0) :
     ((derivTerms j [t]).map (·.2)) = [0] := by
   rw [List.getD_eq_getElem?_getD] at h
   simp [derivTerms, h]
+
+section full
+variable [BEq S] [LawfulBEq S]
+
+/-- `derivative(p, v)` for `v` given by position `j`: the whole pipeline — wrapped uint32 rows, the rebuild with the
+vanished terms dropped (the repair of D4), the re-alignment with the input — denotes the formal partial derivative
+with respect to the `j`-th name, for every value of `retain_names`; exponents below 2³² as numpy's uint32 demands -/
+theorem derivative_den (rn : Bool) (j : Nat) (p : Poly S) (hw : WF p) (hb : Bdd p) (hj : j < p.names.length) :
+    den (derivative rn j p) = pderiv (p.names[j]) (den p) := Np.derivative_den rn j p hw hb hj
+
+/-- the result is again well-formed with exponents below 2³², and keeps the names (so derivatives iterate) -/
+theorem derivative_wellformed (rn : Bool) (j : Nat) (p : Poly S) (hw : WF p) (hb : Bdd p) :
+    WF (derivative rn j p) ∧ Bdd (derivative rn j p) := Np.derivative_WF rn j p hw hb
+theorem derivative_keeps_names (rn : Bool) (j : Nat) (p : Poly S) (hs : p.names.Pairwise (· < ·)) :
+    (derivative rn j p).names = p.names := Np.derivative_names rn j p hs
+
+/-- several variables differentiate successively -/
+theorem derivative_many (rn : Bool) (js : List Nat) (p : Poly S) (hw : WF p) (hb : Bdd p)
+    (hs : p.names.Pairwise (· < ·)) (hj : ∀ j ∈ js, j < p.names.length) :
+    den (derivativeMany rn js p) = js.foldl (fun acc j => pderiv (p.names[j]!) acc) (den p) :=
+  Np.derivativeMany_den rn js p hw hb hs hj
+end full
 
 /-- consequences through Mathlib's `pderiv` (a derivation): linearity, product rule, commuting partials -/
 theorem pderiv_linear (v : Name) (p q : MvPolynomial Name S) (c : S) :
